@@ -97,4 +97,274 @@ theorem evalConds_cons (o : Oracles) (ctx : Ctx) (e : Expr) (es : List Expr) :
 theorem eval_attr (o : Oracles) (ctx : Ctx) (e : Expr) (a : String) :
     eval o ctx (.attr e a) = rowAttr (eval o ctx e) (lowerName a) := by rfl
 
+/-! ### the remaining constructors (used by the whole-tree renaming theorem, `Lemmas/NameCase.lean`)
+
+`eval (.callName …)`, `eval (.callNameGen …)` and `eval (.callAttr …)` dispatch on the (lower-cased)
+function / method name and on the shape of the argument list.  Their bodies are restated here with
+the recursive calls abstracted (`ev`, `evArgs`, `evLazy`, `gensM`, `eltM`, `recvM`), so that facts about
+the dispatch can be proved once, outside the mutual induction.  Each restatement is checked against
+the definition of `eval` by `unfold eval …; rfl`. -/
+
+theorem eval_attrName (o : Oracles) (ctx : Ctx) (id a : String) :
+    eval o ctx (.attrName id a) =
+      (if lowerName id == "txn" then
+        (match txnAttr ctx (lowerName a) with
+         | some v => pure v
+         | none => exprErr "Unknown txn attribute")
+      else if lowerName id == "field" then
+        (match fieldBuiltin ctx (lowerName a) with
+         | some v => pure v
+         | none =>
+           match ctx.field with
+           | some f => (match f.lookup (lowerName a) with
+             | some v => pure v
+             | none => exprErr "Unknown field")
+           | none => exprErr "Unknown field")
+      else rowAttr (lookupName ctx id) (lowerName a)) := by rfl
+theorem eval_callOther (o : Oracles) (ctx : Ctx) (g : Expr) (args : List Expr) :
+    eval o ctx (.callOther g args) = exprErr "Only simple function calls are supported" := by rfl
+theorem eval_genexp (o : Oracles) (ctx : Ctx) (elt : Expr) (gens : List Comp) :
+    eval o ctx (.genexp elt gens) = raise (.unmodelled "generator object outside a consuming call") := by rfl
+theorem eval_subscript (o : Oracles) (ctx : Ctx) (e i : Expr) :
+    eval o ctx (.subscript e i) = (do
+      let v ← eval o ctx e
+      let idx ← eval o ctx i
+      match v with
+      | .str s =>
+        (match isIntLike idx with
+         | some k => (match pyIndex s.toList k with
+           | some c => pure (.str (String.singleton c))
+           | none => exprErr "Index error")
+         | none => pyErr .typeError)
+      | .list xs =>
+        (match isIntLike idx with
+         | some k => (match pyIndex xs k with
+           | some x => pure x
+           | none => exprErr "Index error")
+         | none => pyErr .typeError)
+      | .row kvs =>
+        if !hashable idx then pyErr .typeError else
+        (match idx with
+         | .str k => (match kvs.lookup k with
+           | some x => pure x
+           | none => exprErr "Index error")
+         | _ => exprErr "Index error")
+      | _ => pyErr .typeError) := by rfl
+theorem evalArgs_nil (o : Oracles) (ctx : Ctx) : evalArgs o ctx [] = pure [] := by rfl
+theorem evalArgs_cons (o : Oracles) (ctx : Ctx) (e : Expr) (es : List Expr) :
+    evalArgs o ctx (e :: es) = (do
+      let v ← eval o ctx e
+      let vs ← evalArgs o ctx es
+      pure (v :: vs)) := by rfl
+theorem evalLazyArgs_nil (o : Oracles) (ctx : Ctx) (c : Consumer) (acc : Acc) : evalLazyArgs o ctx c [] acc = pure acc := by rfl
+theorem evalLazyArgs_cons (o : Oracles) (ctx : Ctx) (c : Consumer) (e : Expr) (es : List Expr) (acc : Acc) :
+    evalLazyArgs o ctx c (e :: es) acc = (do
+      let v ← eval o ctx e
+      match consume c acc v with
+      | .ok (.more a) => evalLazyArgs o ctx c es a
+      | .ok (.done a) => pure a
+      | .error err => raise err) := by rfl
+
+/-- body of `eval (.callName g args)` as a function of the lower-cased function name, with the
+recursive calls abstracted -/
+def callNameBody (o : Oracles) (ctx : Ctx) (ev : Expr → M Val) (evArgs : List Expr → M (List Val))
+    (evLazy : Consumer → List Expr → Acc → M Acc) (fn : String) (args : List Expr) : M Val :=
+    match fn with
+    | "exists" =>
+      (match args with
+       | [a] => catchExpr (do
+           let v ← ev a
+           if truthy v then do
+             let s ← liftE (pyStr o v)
+             pure (.bool (!(pyStrip s).isEmpty))
+           else pure (.bool false))
+           (pure (.bool false))
+       | _ => exprErr "exists() requires exactly 1 argument")
+    | "len" =>
+      (match args with
+       | [a] => do
+         let v ← ev a
+         match v with
+         | .str s => pure (.int s.length)
+         | .list xs => pure (.int xs.length)
+         | .row kvs => pure (.int kvs.length)
+         | _ => pyErr .typeError
+       | _ => exprErr "len() requires exactly 1 argument")
+    | "sum" =>
+      (match args with
+       | [a] => do
+         let it ← ev a
+         finishConsumer .sum it (.int 0)
+       | [a, b] => do
+         let it ← ev a
+         let st ← ev b
+         finishConsumer .sum it st
+       | _ => exprErr "sum() requires 1 or 2 arguments")
+    | "any" =>
+      (match args with
+       | [a] => do
+         let it ← ev a
+         finishConsumer .any it (.bool false)
+       | _ => exprErr "any() requires exactly 1 argument")
+    | "all" =>
+      (match args with
+       | [a] => do
+         let it ← ev a
+         finishConsumer .all it (.bool true)
+       | _ => exprErr "all() requires exactly 1 argument")
+    | "next" =>
+      (match args with
+       | [a] => do
+         let v ← ev a
+         match v with
+         | .gen _ => raise (.unmodelled "next() on an escaped generator")
+         | _ => pyErr .typeError
+       | [a, d] => do
+         let v ← ev a
+         let _ ← ev d
+         match v with
+         | .gen _ => raise (.unmodelled "next() on an escaped generator")
+         | _ => pyErr .typeError
+       | _ => exprErr "next() requires 1 or 2 arguments")
+    | "min" =>
+      if args.length == 1 then do
+        let vs ← evArgs args
+        match vs with
+        | [it] => finishConsumer .min it .none
+        | _ => pyErr .typeError
+      else do
+        let st ← evLazy .min args (emptyAcc .none)
+        finishAcc .min st
+    | "max" =>
+      if args.length == 1 then do
+        let vs ← evArgs args
+        match vs with
+        | [it] => finishConsumer .max it .none
+        | _ => pyErr .typeError
+      else do
+        let st ← evLazy .max args (emptyAcc .none)
+        finishAcc .max st
+    | _ =>
+      if fn == "abs" || fn == "round" || ctx.functionNames.contains fn then do
+        let vs ← evArgs args
+        liftE (callFn o ctx fn vs)
+      else exprErr "Unknown function"
+
+theorem eval_callName (o : Oracles) (ctx : Ctx) (g : String) (args : List Expr) :
+    eval o ctx (.callName g args) =
+      callNameBody o ctx (eval o ctx) (evalArgs o ctx) (evalLazyArgs o ctx) (lowerName g) args := by
+  conv => lhs; unfold eval
+  unfold callNameBody
+  rfl
+
+/-- body of `eval (.callNameGen g elt gens more)`: `gensM` stands for `evalGens o ctx gens`, `eltM` for
+`eval o ctx elt` -/
+def callNameGenBody (o : Oracles) (ctx : Ctx) (ev : Expr → M Val) (evArgs : List Expr → M (List Val))
+    (gensM : (Acc → M (Step Acc)) → Acc → M (Step Acc)) (eltM : M Val) (fn : String) (more : List Expr) : M Val :=
+    match fn with
+    | "exists" =>
+      (match more with
+       | [] => pure (.bool true)
+       | _ => exprErr "exists() requires exactly 1 argument")
+    | "len" =>
+      (match more with
+       | [] => pyErr .typeError
+       | _ => exprErr "len() requires exactly 1 argument")
+    | "sum" =>
+      (match more with
+       | [] => runGen gensM eltM .sum (.int 0)
+       | [b] => do
+         let st ← ev b
+         match st with
+         | .str _ => pyErr .typeError
+         | _ => runGen gensM eltM .sum st
+       | _ => exprErr "sum() requires 1 or 2 arguments")
+    | "any" =>
+      (match more with
+       | [] => runGen gensM eltM .any (.bool false)
+       | _ => exprErr "any() requires exactly 1 argument")
+    | "all" =>
+      (match more with
+       | [] => runGen gensM eltM .all (.bool true)
+       | _ => exprErr "all() requires exactly 1 argument")
+    | "next" =>
+      (match more with
+       | [] => do
+         let st ← gensM (fun acc => do
+           let v ← eltM
+           liftE (consume .next acc v)) (emptyAcc .none)
+         match st with
+         | .done acc => pure acc.cur
+         | .more _ => pyErr .stopIteration
+       | [d] => do
+         let dv ← ev d
+         let st ← gensM (fun acc => do
+           let v ← eltM
+           liftE (consume .next acc v)) (emptyAcc .none)
+         match st with
+         | .done acc => pure acc.cur
+         | .more _ => pure dv
+       | _ => exprErr "next() requires 1 or 2 arguments")
+    | "min" | "max" =>
+      (match more with
+       | [] => runGen gensM eltM (if fn == "min" then .min else .max) .none
+       | b :: _ => do
+         let _ ← ev b
+         pyErr .typeError)
+    | _ =>
+      if fn == "abs" || fn == "round" || ctx.functionNames.contains fn then do
+        let vs ← evArgs more
+        liftE (callFn o ctx fn (Val.gen [] :: vs))
+      else exprErr "Unknown function"
+
+theorem eval_callNameGen (o : Oracles) (ctx : Ctx) (g : String) (elt : Expr) (gens : List Comp) (more : List Expr) :
+    eval o ctx (.callNameGen g elt gens more) =
+      callNameGenBody o ctx (eval o ctx) (evalArgs o ctx) (evalGens o ctx gens) (eval o ctx elt) (lowerName g) more := by
+  conv => lhs; unfold eval
+  unfold callNameGenBody
+  rfl
+
+/-- body of `eval (.callAttr recv meth args)`: `recvM` stands for `eval o ctx recv`, `m` for the lower-cased method name -/
+def callAttrBody (o : Oracles) (ev : Expr → M Val) (recvM : M Val) (m : String) (args : List Expr) : M Val := do
+    let obj ← recvM
+    match obj with
+    | .str s =>
+      (match m with
+       | "lower" => do let r ← liftE (pyLower o s); pure (.str r)
+       | "upper" => do let r ← liftE (pyUpper o s); pure (.str r)
+       | "strip" => pure (.str (pyStrip s))
+       | "startswith" =>
+         (match args with
+          | [a] => do
+            let v ← ev a
+            match v with
+            | .str p => pure (.bool (strStartsWith s p))
+            | _ => pyErr .typeError
+          | _ => exprErr "startswith() requires 1 argument")
+       | "endswith" =>
+         (match args with
+          | [a] => do
+            let v ← ev a
+            match v with
+            | .str p => pure (.bool (strEndsWith s p))
+            | _ => pyErr .typeError
+          | _ => exprErr "endswith() requires 1 argument")
+       | "replace" =>
+         (match args with
+          | [a, b] => do
+            let va ← ev a
+            let vb ← ev b
+            match va, vb with
+            | .str x, .str y => pure (.str (strReplace s x y))
+            | _, _ => pyErr .typeError
+          | _ => exprErr "replace() requires 2 arguments")
+       | _ => exprErr "Unsupported method call")
+    | _ => exprErr "Unsupported method call"
+
+theorem eval_callAttr (o : Oracles) (ctx : Ctx) (recv : Expr) (meth : String) (args : List Expr) :
+    eval o ctx (.callAttr recv meth args) = callAttrBody o (eval o ctx) (eval o ctx recv) (lowerName meth) args := by
+  conv => lhs; unfold eval
+  unfold callAttrBody
+  rfl
+
 end TallyVerif.Expr
